@@ -592,6 +592,14 @@ def prop (c : Cfg) : Nat → Mode → World → Nat → World × Bool
 
 def fuelOf (w : World) : Nat := 4 * w.execs.length + 8
 
+/-- the transaction raised and is rolled back: rows and post-commit operations are gone, but the scheduler
+    jobs it scheduled stay in the scheduler's memory (`DefaultScheduler.schedule` registers the job in memory
+    before the transaction commits) and will run -/
+def rolledBack (w w' : World) : World :=
+  { w with pending := w.pending ++ (w'.pending.drop w.pending.length).filter fun i => match i with
+      | .jobChildUpdate _ => true
+      | _ => false }
+
 /-! ## the transition system -/
 
 def step (c : Cfg) (w : World) : Event → World
@@ -602,10 +610,10 @@ def step (c : Cfg) (w : World) : Event → World
     | _ => (stopOne w a s (.op msg)).getD w
   | .pause a =>
     let r := prop c (fuelOf w) .pause w a
-    if r.2 then w else r.1
+    if r.2 then rolledBack w r.1 else r.1
   | .resume a =>
     let r := prop c (fuelOf w) .resume w a
-    if r.2 then w else r.1
+    if r.2 then rolledBack w r.1 else r.1
   | .execute t ok =>
     if !w.pending.contains (.runAction t) then w else
     { w with pending := removeFirst w.pending (.runAction t) ++ [.rpcResult t ok] }
